@@ -1208,6 +1208,8 @@ pub struct InputSpec {
     pub templates: Vec<&'static str>,
     pub ext: ExtVariant,
     pub elf: ElfKind,
+    /// C21: run this input under every selection (default, all, each single check) instead of default + all only
+    pub all_selections: bool,
 }
 
 impl InputSpec {
@@ -1224,20 +1226,28 @@ impl InputSpec {
     }
 }
 
-/// The C21 input family of a tier (C23 re-uses it), in a fixed order.
+/// The C21 input family of a tier, in a fixed order.
+///
+/// quick (about 4 000 CLI runs): every single template x 4 extern tables x 4 x86_64 ELF kinds + ARM-style
+/// ET_DYN, of which four (extern table, ELF kind) combinations get all 21 selections and the rest
+/// default + all checks; every ordered template pair (x86_64, Full table, ET_DYN with sections) with default + all.
+/// thorough (about 128 000 runs): all 21 selections for every single template x 4 tables x 8 (register table, ELF kind)
+/// combinations and for every ordered pair x 7 combinations; default + all for every ordered triple.
 pub fn input_family(thorough: bool) -> Vec<InputSpec> {
     let mut out = Vec::new();
     let t = TEMPLATES;
     let x_elfs: &[ElfKind] = if thorough { &ELF_KINDS } else { &[ElfKind::DynMin, ElfKind::DynSections, ElfKind::RelLkm, ElfKind::RelPlain] };
     let a_elfs: &[ElfKind] = if thorough { &[ElfKind::DynMin, ElfKind::ExecMin, ElfKind::RelLkm] } else { &[ElfKind::DynMin] };
-    // every single template x every extern table x every ELF kind, both register tables
+    let quick_full = |ext: ExtVariant, elf: ElfKind| {
+        matches!((ext, elf), (ExtVariant::Full, ElfKind::DynSections) | (ExtVariant::Full, ElfKind::RelLkm) | (ExtVariant::Used, ElfKind::DynSections) | (ExtVariant::Kernel, ElfKind::RelLkm))
+    };
     for &t1 in t.iter() {
         for ext in EXT_VARIANTS {
             for &elf in x_elfs {
-                out.push(InputSpec { arch: "x64", templates: vec![t1], ext, elf });
+                out.push(InputSpec { arch: "x64", templates: vec![t1], ext, elf, all_selections: thorough || quick_full(ext, elf) });
             }
             for &elf in a_elfs {
-                out.push(InputSpec { arch: "arm", templates: vec![t1], ext, elf });
+                out.push(InputSpec { arch: "arm", templates: vec![t1], ext, elf, all_selections: thorough });
             }
         }
     }
@@ -1247,12 +1257,12 @@ pub fn input_family(thorough: bool) -> Vec<InputSpec> {
             if thorough {
                 for ext in [ExtVariant::Used, ExtVariant::Full, ExtVariant::Kernel] {
                     for elf in [ElfKind::DynSections, ElfKind::RelLkm] {
-                        out.push(InputSpec { arch: "x64", templates: vec![t1, t2], ext, elf });
+                        out.push(InputSpec { arch: "x64", templates: vec![t1, t2], ext, elf, all_selections: true });
                     }
                 }
-                out.push(InputSpec { arch: "arm", templates: vec![t1, t2], ext: ExtVariant::Full, elf: ElfKind::DynMin });
+                out.push(InputSpec { arch: "arm", templates: vec![t1, t2], ext: ExtVariant::Full, elf: ElfKind::DynMin, all_selections: true });
             } else {
-                out.push(InputSpec { arch: "x64", templates: vec![t1, t2], ext: ExtVariant::Full, elf: ElfKind::DynSections });
+                out.push(InputSpec { arch: "x64", templates: vec![t1, t2], ext: ExtVariant::Full, elf: ElfKind::DynSections, all_selections: false });
             }
         }
     }
@@ -1261,9 +1271,38 @@ pub fn input_family(thorough: bool) -> Vec<InputSpec> {
         for &t1 in t.iter() {
             for &t2 in t.iter() {
                 for &t3 in t.iter() {
-                    out.push(InputSpec { arch: "x64", templates: vec![t1, t2, t3], ext: ExtVariant::Full, elf: ElfKind::DynMin });
+                    out.push(InputSpec { arch: "x64", templates: vec![t1, t2, t3], ext: ExtVariant::Full, elf: ElfKind::DynMin, all_selections: false });
                 }
             }
+        }
+    }
+    out
+}
+
+/// The C23 input family: (input, selections to run [0 = default, 1 = all checks], divisor of the seed count).
+///
+/// quick: every single template (x86_64: Full table + ET_DYN with sections, Kernel table + kernel module;
+/// ARM-style: Full table + ET_DYN) with both selections and all K seeds; every ordered template pair
+/// (x86_64, Full table, ET_DYN with sections) with the all-checks selection and K/2 seeds.
+/// thorough: every single-template input of the thorough C21 family with both selections and all K seeds;
+/// every ordered pair with both selections and K/4 seeds.
+pub fn seed_family(thorough: bool) -> Vec<(InputSpec, Vec<usize>, u64)> {
+    let mut out = Vec::new();
+    if thorough {
+        for s in input_family(true).into_iter().filter(|s| s.templates.len() == 1) {
+            out.push((s, vec![0, 1], 1));
+        }
+        for s in input_family(false).into_iter().filter(|s| s.templates.len() == 2) {
+            out.push((s, vec![0, 1], 4));
+        }
+    } else {
+        for &t1 in TEMPLATES.iter() {
+            out.push((InputSpec { arch: "x64", templates: vec![t1], ext: ExtVariant::Full, elf: ElfKind::DynSections, all_selections: false }, vec![0, 1], 1));
+            out.push((InputSpec { arch: "x64", templates: vec![t1], ext: ExtVariant::Kernel, elf: ElfKind::RelLkm, all_selections: false }, vec![0, 1], 1));
+            out.push((InputSpec { arch: "arm", templates: vec![t1], ext: ExtVariant::Full, elf: ElfKind::DynMin, all_selections: false }, vec![0, 1], 1));
+        }
+        for s in input_family(false).into_iter().filter(|s| s.templates.len() == 2) {
+            out.push((s, vec![1], 2));
         }
     }
     out
